@@ -18,7 +18,8 @@ from ..oracle import Notes
 from ..twin import TwinExec, diff_states, observable_state
 
 TARGETS = ["commit", "amend", "rebase", "rebase_continue", "cherry_pick", "reset_soft", "reset_hard",
-           "stash_push", "stash_pop", "squash", "checkout_b", "switch", "commit_partial"]
+           "stash_push", "stash_pop", "squash", "checkout_b", "switch", "commit_partial",
+           "push", "fetch", "pull_ff", "pull_rebase"]
 GIT_KINDS = ["fail:128", "fail:1", "short:0", "short:half", "kill"]
 JOURNAL_KINDS = ["crash", "torn:half", "eio", "enospc"]
 CORRUPT_KINDS = ["truncate_half", "truncate_tail", "truncate_0", "flip_byte", "delete", "garbage", "dup_last_line", "dir"]
@@ -107,6 +108,24 @@ def prefix_ops(g, target):
         yield from hist.fam_feature_branch(g, rng.randint(1, 2), path)
         yield g.git("checkout", "-q", base)
         yield g.git("merge", "--squash", "feat", target=True)
+    elif target in ("push", "fetch", "pull_ff", "pull_rebase"):
+        yield {"op": "setup_remote", "dt": 1000}
+        if target == "push":
+            yield from g.some_edits(n_ai=(1, 2), n_human=(0, 1))
+            yield from g.commit_all()
+            yield g.git("push", "-q", "origin", "main", target=True)
+        else:
+            yield {"op": "remote_commit", "path": "upstream%d.txt" % g.ex.fresh_id(),
+                   "content": "L%d upstream line\n" % g.ex.fresh_id(), "dt": 2000}
+            if target == "pull_rebase":
+                yield from g.some_edits(n_ai=(1, 2), n_human=(0, 1))
+                yield from g.commit_all()
+                yield g.git("pull", "-q", "--rebase", "origin", "main", target=True)
+            elif target == "pull_ff":
+                yield g.ai_edit()          # uncommitted AI work rides along a fast-forward
+                yield g.git("pull", "-q", "--ff-only", "origin", "main", target=True)
+            else:
+                yield g.git("fetch", "-q", "origin", target=True)
     elif target in ("checkout_b", "switch"):
         yield from g.some_edits(n_ai=(1, 2), n_human=(0, 1))
         yield from g.commit_all()
@@ -167,11 +186,12 @@ def corrupt(path, kind):
 class C07(Prop):
     id = "C07"
     level = "fault_enumeration"
-    quick_runs, thorough_runs = 48, 1500
+    quick_runs, thorough_runs = 51, 1700
     quick_budget_s, thorough_budget_s = 170, 1800
     rule = ("one task = one sampled scenario (prefix of edits/checkpoints/commits + one wrapped target command of a "
             "hooked kind: commit, partial commit, amend, rebase, rebase --continue after a conflict, cherry-pick, reset "
-            "soft/mixed/hard, stash push/pop, merge --squash, checkout -b, switch) x one fault family. Within the task "
+            "soft/mixed/hard, stash push/pop, merge --squash, checkout -b, switch, push / fetch / pull --ff-only / pull "
+            "--rebase against a bare remote) x one fault family. Within the task "
             "EVERY internal git call index of the target command is enumerated for each of fail(128), fail(1), empty "
             "stdout, half stdout, kill-the-wrapper; EVERY journal point reached for crash / torn write / EIO / ENOSPC; "
             "EVERY file under .git/ai for truncate-half / truncate-0 / byte flip / delete / garbage / duplicate tail / "
@@ -196,8 +216,7 @@ class C07(Prop):
 
     def header(self, rng, tier, index):
         target = TARGETS[index % len(TARGETS)]
-        family = ["git", "journal", "corrupt"][(index // len(TARGETS)) % 3] if tier != "quick" else \
-            ["git", "git", "journal", "corrupt"][(index // len(TARGETS)) % 4]
+        family = ["git", "journal", "corrupt"][(index // len(TARGETS)) % 3]
         n_sessions = rng.choice([1, 2])
         cfg = {"target": target, "fault_family": family, "hazards": {}, "human_pre_ckpt": True, "max_lines": 40,
                "gates": self.gates(), "user_hooks": True}
@@ -263,6 +282,7 @@ class C07(Prop):
         r = Prop._result(self, ex, trace, viol)
         r["evals"] = evals
         r["distinct_set"] = sorted(ex.gen_state.get("distinct", set()))
+        r["known_ids"] = sorted(ex.gen_state.get("known_ids", set()))
         r["nontrivial"] = bool(ex.gen_state.get("fired"))
         if viol and "step" not in viol:
             viol["step"] = len(trace["ops"])
@@ -360,14 +380,24 @@ class C07(Prop):
                     # hook-less AI checkpoint claim every uncommitted change
                     for kind in ("truncate_tail", "garbage", "dir"):
                         faults.append({"family": "corrupt", "file": f, "kind": kind, "before_op": mid})
-        if tier == "quick" and len(faults) > 80:
-            faults = rng.sample(faults, 80)
+        if tier == "quick" and len(faults) > 60:
+            faults = rng.sample(faults, 60)
         evals = 1
         viol = None
+        from .. import known as known_mod
+        from ..runner import load_known
+        known_db = load_known()
         for k, fault in enumerate(faults):
             evals += 1
             viol = self.branch(ex, trace, target_op, fault, snapshot=True, follow_up=(k % 3 == 0))
             if viol:
+                # a listed finding must not end the enumeration of the other faults of this scenario
+                kf = known_mod.classify(known_db, self.id, dict(trace, fault=fault), viol)
+                if kf is not None:
+                    ex.gen_state.setdefault("known_ids", set()).add(kf["id"])
+                    ex.probe("known_finding_branch")
+                    viol = None
+                    continue
                 trace["fault"] = fault
                 break
         for tag in ("pre", "post"):
